@@ -26,6 +26,8 @@ def two_widths(rng, zero=0.05):
     b = width(rng, zero)
     if x < 0.5 and a == b:
         b = a + 1 + rng.randrange(1000)
+        if b > 0xFFFF:
+            b = a - 1 - rng.randrange(1000)
     return a, b
 
 def length(rng, cls):
